@@ -41,6 +41,9 @@ def gen(ctx, i):
     if i % 5 == 1:
         # keyword texts recur in several roles of the grammar
         gen_.preuse = 0.2
+    if i % 5 == 2:
+        # list separators that may match the empty string
+        gen_.poptsep = 0.4
     g = gen_.grammar()
     if i % 7 == 3:
         nullable_shapes(g, gen_, ctx.rng('nullable', i))
